@@ -242,6 +242,17 @@ int main (void) {
 				printf ("%lld\n", (long long) r);
 				if (len > BIG) munmap (b, len); else free (b);
 			}
+		} else if (!strcmp (op, "wx") && n == 3 && h < MAXH && hs[h]) {
+			/* a length that can never fit (>= 2^32, up to 2^64-1, beyond what can be reserved): must be refused with 0
+			 * before a single byte is read — the source is one byte long, ASan sees any access past it */
+			size_t len = strtoull (arg, NULL, 10);
+			if (len < 4294967296ULL) { puts ("bad-op"); }
+			else {
+				unsigned char *one = malloc (1); one[0] = 0;
+				pssize r = p_shm_buffer_write (hs[h], one, len, NULL);
+				printf ("%lld\n", (long long) r);
+				free (one);
+			}
 		} else if (!strcmp (op, "w") && n == 3 && h < MAXH && hs[h]) {
 			size_t len = (arg[0] == '-') ? 0 : strlen (arg) / 2;
 			unsigned char *b = malloc (len ? len : 1);
